@@ -107,6 +107,14 @@ func frameJobs(tier string) []*Job {
 	if thorough {
 		add(mk(131072+40, -65536, 5, 0, 1, 0, 0, 0, 4, 0, 0, 0))
 	}
+	// an incompressible first block (stored raw at exactly the block size, straight from the caller's
+	// buffer) followed by more data in the same Write call, with block checksums
+	add(mk(65536+40, -65536, 4, 1, 1, 0, 0, 0, 0, 0, 2, 0))
+	add(mk(65536+40, -65536, 4, 1, 0, 0, 0, 0, 1, 17, 0, 0))
+	if thorough {
+		add(mk(131072+40, -65536, 4, 1, 1, 0, 0, 0, 0, 0, 1, 0))
+		add(mk(65536+40, -65536, 4, 0, 1, 0, 0, 0, 2, 65536, 4, 0))
+	}
 	// levels 2..8 (HC chain depths 1024..65536): a tiny all-symbolic input under rotating options and
 	// a compressible input per level (thorough: both checksum settings, legacy, two periods)
 	r2 := &lcg{s: 777}
@@ -148,6 +156,7 @@ func frameBounds(tier string) []string {
 		"every delivery shape {one Write; Write|Write; Write|Flush|Write; Flush,Write,Flush,Flush; ReadFrom with 4 source fragmentation modes; byte-by-byte} x read-back {Read >= block size; Read 3-byte buffers; WriteTo; mixed 1/2/7/block+1; block-1} x source fragmentation {full; 1 byte; data+EOF; zero-length reads}",
 		"compressible inputs of 40 and 70 bytes (thorough: 24..300) built from a symbolic period of 1..3 bytes: real compressed blocks, with splits",
 		"131112 incompressible bytes with an exact 64 KiB period in one 256 KiB block (redundancy only at distance 65536)",
+		"65576 (thorough also 131112) incompressible bytes with 64 KiB blocks and block checksums in one Write call (first block stored raw straight from the caller's slice); the Writer works on a private copy of the input, the comparison uses the original",
 		"block-boundary inputs of 65535 / 65536 / 65537 / 131073 bytes with 64 KiB blocks (concrete compressible filler, last two bytes symbolic), split at 1 / 65535 / 65536 / 65537",
 		"all input bytes symbolic otherwise; concurrency = 1; amd64 portable decoder",
 	}
